@@ -186,13 +186,28 @@ impl TrainSpec {
         od: Option<(&str, &str)>,
         init_speed: Option<f64>,
     ) -> anyhow::Result<TrainSimBuilder> {
+        self.build_builder_init_at(save_interval, od, init_speed, 0.0)
+    }
+
+    /// `offset_extra` > 0: initial offset = train length + offset_extra
+    pub fn build_builder_init_at(
+        &self,
+        save_interval: Option<usize>,
+        od: Option<(&str, &str)>,
+        init_speed: Option<f64>,
+        offset_extra: f64,
+    ) -> anyhow::Result<TrainSimBuilder> {
         Ok(TrainSimBuilder::new(
             "t".into(),
             self.build_config()?,
             self.build_consist(save_interval)?,
             od.map(|x| x.0.to_string()),
             od.map(|x| x.1.to_string()),
-            Some(InitTrainState::new(Some(uc::S * self.init_time), None, init_speed.map(|v| uc::MPS * v))),
+            Some(InitTrainState::new(
+                Some(uc::S * self.init_time),
+                if offset_extra > 0.0 { Some(uc::M * (self.length() + offset_extra)) } else { None },
+                init_speed.map(|v| uc::MPS * v),
+            )),
         ))
     }
 }
